@@ -116,6 +116,20 @@ Fixpoint tree_ng (d : nat) (r : runner) (fuel : nat) (ng : ngraph) (pv : dict va
       ST (LRun (rres_failed (fst res)) false) (map (fun calls => ST LStep (map node_tree calls)) (snd res))
   end.
 
+(* runner.map at top level (template_*.map): a map run span holding one run span per generated input combination; nothing at
+   all is emitted when the inputs cannot be generated or there is no combination *)
+Definition tree_map_top (d : nat) (r : runner) (fuel : nat) (ng : ngraph) (pv : dict val) (over : list name) (mode : map_mode)
+           (continue_mode : bool) : option stree :=
+  match generate_map_inputs pv over mode with
+  | inl _ => None
+  | inr [] => None
+  | inr items =>
+      let stop := match r with Sync => negb continue_mode | Async => false end in
+      let trees := item_trees (tree_ng d r fuel ng) stop items in
+      let group := match r with Sync => trees | Async => [ST LStep trees] end in
+      Some (ST (LRun (existsb run_failed trees && negb continue_mode) true) group)
+  end.
+
 (* ------------------------------------------------------------------ comparison with an observed tree *)
 
 Definition slabel_eqb (a b : slabel) : bool :=
